@@ -102,6 +102,12 @@ pub fn msg_opts_for(rng: &mut Rng, i: usize) -> MsgOpts {
 
 fn gen_c01(rng: &mut Rng, thorough: bool, out: &mut Cases) {
     let n = if thorough { 120_000 } else { 6_000 };
+    for m in gen_twin_messages(rng, 40) {
+        let mut w = W::new();
+        w.msg(&m);
+        w.b(&gen_suffix(rng));
+        out.push(20, w);
+    }
     // a message followed by a LOT of bytes: around 2^16 and around 2^32 (op 34 allocates them zero-filled)
     for i in 0..(if thorough { 200 } else { 40 }) {
         let mut o = msg_opts_for(rng, i);
@@ -936,6 +942,11 @@ fn gen_c15(rng: &mut Rng, thorough: bool, out: &mut Cases) {
 fn gen_c16(rng: &mut Rng, thorough: bool, out: &mut Cases) {
     let n = if thorough { 300_000 } else { 20_000 };
     let mut ins = vec![];
+    for m in gen_twin_messages(rng, 40) {
+        if let Ok(b) = std::panic::catch_unwind(|| m.as_bytes()) {
+            ins.push((false, b));
+        }
+    }
     dialect_inputs(rng, n, &mut ins);
     hostile_inputs(rng, n / 2, &mut ins);
     for (sh, bs) in ins {
@@ -947,6 +958,11 @@ fn gen_c16(rng: &mut Rng, thorough: bool, out: &mut Cases) {
 }
 
 fn gen_c02(rng: &mut Rng, thorough: bool, out: &mut Cases) {
+    for m in gen_twin_messages(rng, 40) {
+        let mut w = W::new();
+        w.msg(&m);
+        out.push(61, w);
+    }
     // encoding: well-formed messages of every kind
     let n = if thorough { 100_000 } else { 5_000 };
     for i in 0..n {
@@ -1313,4 +1329,57 @@ pub fn gen_junkcut(rng: &mut Rng, nmsgs: usize, out: &mut Cases) {
             out.push(36, w);
         }
     }
+}
+
+/// verbose messages whose consecutive arguments are equal under `==` but not bit for bit (+0.0 / -0.0 in a float value
+/// or a fixed-point quantization), and exact duplicates
+pub fn gen_twin_messages(rng: &mut Rng, n: usize) -> Vec<Message> {
+    let mut v = vec![];
+    for i in 0..n {
+        let ti = |kind: TypeInfoKind| TypeInfo { kind, coding: StringCoding::ASCII, has_variable_info: false, has_trace_info: false };
+        let (a, b): (Argument, Argument) = match i % 4 {
+            0 => {
+                let mk = |bits: u32| Argument { type_info: ti(TypeInfoKind::Float(FloatWidth::Width32)), name: None, unit: None, fixed_point: None, value: Value::F32(f32::from_bits(bits)) };
+                (mk(0), mk(0x8000_0000))
+            }
+            1 => {
+                let mk = |bits: u64| Argument { type_info: ti(TypeInfoKind::Float(FloatWidth::Width64)), name: None, unit: None, fixed_point: None, value: Value::F64(f64::from_bits(bits)) };
+                (mk(0x8000_0000_0000_0000), mk(0))
+            }
+            2 => {
+                let mk = |bits: u32| Argument {
+                    type_info: ti(TypeInfoKind::UnsignedFixedPoint(FloatWidth::Width32)),
+                    name: None,
+                    unit: None,
+                    fixed_point: Some(FixedPoint { quantization: f32::from_bits(bits), offset: FixedPointValue::I32(7) }),
+                    value: Value::U32(5),
+                };
+                (mk(0), mk(0x8000_0000))
+            }
+            _ => {
+                let a = gen_arg(rng, 8);
+                (a.clone(), a)
+            }
+        };
+        let mut args = vec![];
+        if rng.bool() {
+            args.push(gen_arg(rng, 6));
+        }
+        args.push(a);
+        args.push(b);
+        let conf = MessageConfig {
+            version: 1,
+            counter: i as u8,
+            endianness: if rng.bool() { Endianness::Big } else { Endianness::Little },
+            ecu_id: None,
+            session_id: None,
+            timestamp: None,
+            payload: PayloadContent::Verbose(args),
+            extended_header_info: Some(ExtendedHeaderConfig { message_type: MessageType::Log(LogLevel::Info), app_id: "APP".to_string(), context_id: "CTX".to_string() }),
+        };
+        if let Ok(m) = std::panic::catch_unwind(|| Message::new(conf, None)) {
+            v.push(m);
+        }
+    }
+    v
 }
